@@ -1,6 +1,6 @@
 (* Properties/C19.v — special tokens only where the grammar names them: the set a negated
    token-range reference denotes. *)
-From LLG Require Import Base Special SpecialProofs.
+From LLG Require Import Base Params Regex RegexProofs Special SpecialProofs.
 
 Theorem C19_negated_ranges_are_the_complement : forall vocab rs neg t,
   negated_ranges vocab rs = Some neg ->
@@ -12,3 +12,21 @@ Theorem C19_negated_ranges_inside_vocabulary : forall vocab rs neg,
   negated_ranges vocab rs = Some neg -> Forall (fun '(a, b) => a <= b /\ b < vocab) neg.
 Proof. exact negated_ranges_wf. Qed.
 Print Assumptions C19_negated_ranges_inside_vocabulary.
+
+(* text positions written with the complement operator: with the variant read from
+   lark/compiler.rs no word containing the marker byte — so no special token, whatever its name —
+   is in the language of the compiled terminal; on ordinary text it is the plain complement *)
+Theorem C19_complement_never_matches_marker : forall r w,
+  re_lang (lark_not LARK_NOT_EXCLUDES_MARKER r) w -> ~ In 255 w.
+Proof. exact lark_not_never_matches_marker. Qed.
+Print Assumptions C19_complement_never_matches_marker.
+
+Theorem C19_complement_on_text : forall r w, bytes_ok w -> ~ In 255 w ->
+  (re_lang (lark_not LARK_NOT_EXCLUDES_MARKER r) w <-> ~ re_lang r w).
+Proof. exact lark_not_is_complement_on_text. Qed.
+Print Assumptions C19_complement_on_text.
+
+(* the bare complement (the pinned code before 76c360c) contains every special token *)
+Theorem C19_unguarded_complement_refuted : exists r w, re_lang (lark_not false r) (255 :: w).
+Proof. exact lark_not_unguarded_refuted. Qed.
+Print Assumptions C19_unguarded_complement_refuted.
